@@ -6,6 +6,7 @@ package main
 // scratch copy of the repository by /verif/check; never part of /repo.
 
 import (
+	"go.amzn.com/lambda/interop"
 	"io"
 	"bytes"
 	"encoding/base64"
@@ -92,6 +93,8 @@ func genFront(prop string) fw.Generator {
 }
 
 var frontEnvMu sync.Mutex
+var frontBootstrap interop.Bootstrap
+var frontBootstrapFor *sc.World
 
 type frontResp struct {
 	Code int
@@ -113,7 +116,11 @@ func frontInvoke(w *sc.World, body []byte, hdr map[string]string) frontResp {
 		req.Header.Set(k, v)
 	}
 	w.E.Log.Add(vh.Event{Src: "http", Kind: "call", Op: "POST invocations", Len: len(body)})
-	InvokeHandler(rec, req, w.E.API, vh.NewBootstrap([]string{"/var/runtime/bootstrap"}, w.E.Root))
+	// one bootstrap object per emulator instance, created once like main() does - the real one
+	if frontBootstrapFor != w {
+		frontBootstrapFor, frontBootstrap = w, NewSimpleBootstrap([]string{"/var/runtime/bootstrap"}, w.E.Root)
+	}
+	InvokeHandler(rec, req, w.E.API, frontBootstrap)
 	w.E.Log.Add(vh.Event{Src: "http", Kind: "ret", Op: "POST invocations", Status: rec.Code, Len: rec.Body.Len()})
 	return frontResp{rec.Code, rec.Body.Bytes()}
 }
@@ -357,6 +364,25 @@ func runFront(c *fw.Ctx, d frontDesc) {
 			c.Check(p.Env["AWS_ACCESS_KEY_ID"] == "AKIA-FRONT", "front_env_credentials", P+"/front/env-credentials", "credentials not forwarded", nil)
 			c.Check(p.Env["AWS_LAMBDA_LOG_GROUP_NAME"] == "/aws/lambda/Functions" && p.Env["AWS_LAMBDA_FUNCTION_NAME"] == "test_function", "front_env_defaults", P+"/front/env-defaults", "documented defaults missing", nil)
 			c.Check(p.Env["AWS_LAMBDA_RUNTIME_API"] == w.E.Addr, "front_env_api_address", P+"/front/env-api-address", "Runtime API address", p.Env["AWS_LAMBDA_RUNTIME_API"])
+		}
+		// a second initialisation of the same instance with other parameters: the new runtime gets the new ones
+		w.E.Srv.Reset("explicit", 2000)
+		initDone = false
+		os.Setenv("WEIRD", "second=init")
+		os.Setenv("AWS_LAMBDA_FUNCTION_HANDLER", "second.handler")
+		os.Setenv("AWS_ACCESS_KEY_ID", "AKIA-SECOND")
+		os.Setenv("AWS_LAMBDA_FUNCTION_NAME", "second_function")
+		resp2 := frontInvoke(w, []byte("env2"), nil)
+		c.Check(resp2.Code == 200, "front_env_invoke_ok", P+"/front/env-invoke-2", "invocation after re-initialisation failed", resp2.Code)
+		var p2 *vh.Proc
+		for _, q := range w.E.Sup.Procs() {
+			if q.Role == "runtime" && q != p {
+				p2 = q
+			}
+		}
+		if c.Check(p2 != nil, "front_env_runtime", P+"/front/env-runtime-2", "no second runtime", nil) {
+			ok := p2.Env["WEIRD"] == "second=init" && p2.Env["_HANDLER"] == "second.handler" && p2.Env["AWS_ACCESS_KEY_ID"] == "AKIA-SECOND" && p2.Env["AWS_LAMBDA_FUNCTION_NAME"] == "second_function"
+			c.Check(ok, "front_env_per_init", P+"/front/env-stale-after-reinit", "the runtime of a second initialisation did not get that initialisation's parameters", fmt.Sprintf("WEIRD=%q _HANDLER=%q AWS_ACCESS_KEY_ID=%q AWS_LAMBDA_FUNCTION_NAME=%q", p2.Env["WEIRD"], p2.Env["_HANDLER"], p2.Env["AWS_ACCESS_KEY_ID"], p2.Env["AWS_LAMBDA_FUNCTION_NAME"]))
 		}
 	}
 	c.SetTrace(fmt.Sprintf("front/%s/%s/%d", d.Kind, d.Arg, d.N), true)
